@@ -392,6 +392,79 @@ def group_leg(params, res):
                           case=desc)
 
 
+def reinit_leg(params, res):
+    """a terminal is initialised again (the real Terminal.initialize) while
+    a group's task enters a mapping at some point of that initialisation;
+    afterwards another mapping is entered: the two live mappings must not
+    get the same FMMU, and no FMMU that is live for one logical address is
+    programmed for another"""
+    for n in (2, 3, 4):
+        for k in range(0, 40):
+            img = bytearray(b"\0" * 16) + struct.pack("<IIII", 2, 0x99, 1, 5)
+            img += bytes(128 - len(img)) + b"\xff" * 24
+            t = bus.SimTerminal("T", station=9, fmmus=n, eeprom=bytes(img))
+            b = bus.Bus([t])
+            out = {}
+
+            async def main(loop):
+                ec = EtherCat("vf")
+                bus.attach(ec, loop, b)
+                term = Terminal(ec)
+                await term.initialize(absolute=9)
+                term.pdo_in_off, term.pdo_in_sz = 0x1100, 6
+                t.events.clear()
+                again = asyncio.ensure_future(term.initialize(absolute=9))
+                for _ in range(k):
+                    await asyncio.sleep(0.00005)
+                out["during"] = not again.done()
+                cm2 = term.map_fmmu(0x2000, False)
+                i2 = await cm2.__aenter__()
+                await again
+                cm3 = term.map_fmmu(0x3000, False)
+                i3 = await cm3.__aenter__()
+                out["idx"] = (i2, i3)
+                out["table"] = list(term.fmmu_used)
+                await cm3.__aexit__(None, None, None)
+                await cm2.__aexit__(None, None, None)
+            try:
+                aio.run(main, max_iterations=200000)
+            except aio.WallClock:
+                res.inconc("re-initialisation leg: wall-clock watchdog")
+                continue
+            except Exception as ex:
+                res.count("reinit_histories_that_raised")
+                continue
+            desc = dict(reinit=True, fmmus=n, enter_after=k)
+            res.case(["reinit", n, k], nontrivial=out.get("during", False))
+            res.count("reinit_histories")
+            if out.get("during"):
+                res.count("mappings_entered_during_a_re_initialisation")
+            # (a mapping entered before the re-initialisation resets the
+            # slot table dies with it: its FMMU is switched off by the
+            # initialisation. What must not happen is that an FMMU which
+            # is still switched on for one logical address is programmed
+            # for another - followed in the register writes)
+            live = {}
+            for e in t.events:
+                if e[0] != "fmmu":
+                    continue
+                lstart, ln, lsb, leb, phys, pb, typ, act = struct.unpack(
+                    "<IHBBHBBB", e[2][:13])
+                if act & 1 and ln:
+                    if e[1] in live and live[e[1]] != lstart:
+                        res.violation(
+                            "unexplained:reinit-shared-fmmu",
+                            f"{n} FMMUs, mapping entered {k} steps into the "
+                            f"re-initialisation: FMMU {e[1]}, switched on "
+                            f"for logical {live[e[1]]:#x}, was programmed "
+                            f"for {lstart:#x} (slot table {out['table']})",
+                            case=desc)
+                        break
+                    live[e[1]] = lstart
+                elif not act & 1:
+                    live.pop(e[1], None)
+
+
 def shared_leg(params, res):
     """two real sync groups that share terminals: group A (reads and
     writes) runs, then - optionally after a terminal has raised its error
@@ -537,6 +610,7 @@ def run_shard(params):
     if params.get("group"):
         group_leg(params, res)
         shared_leg(params, res)
+        reinit_leg(params, res)
         return res
     n = params["n"]
     if params.get("concurrent"):
